@@ -3,6 +3,8 @@ import re
 import z3
 from .common import *  # noqa
 
+QUERY_SHAPES = [('Expr',), ('Convert', 'None'), ('Convert', 'Expr'), ('Convert', 'Timezone'), ('Convert', 'Offset'), ('Convert', 'Degree'),
+                ('Convert', 'List'), ('Factorize',), ('UnitsFor',), ('Search',), ('Error',)]
 REPLY_VARIANTS = ['Number', 'Date', 'Substance', 'Duration', 'Def', 'Conversion', 'Factorize', 'UnitsFor', 'UnitList', 'Search']
 
 
@@ -27,7 +29,7 @@ class EvalStep(Harness):
     stubs = ((r'^Context::update_time$', stub_unit, 'Context::update_time -> no-op (clock is an input, not state the property tracks)'),
              (r'^TokenIterator::new$', stub_opaque('TokenIterator'), 'TokenIterator::new -> opaque'),
              (r'^<TokenIterator as Iterator>::peekable$', stub_opaque('Peekable<TokenIterator>'), 'peekable -> opaque'),
-             (r'^parse_query$', stub_opaque('Query'), 'parse_query -> opaque Query'),
+             (r'^parse_query$', lambda ex, nc, a: dup(ex.env['parsed_query']), 'parse_query -> an arbitrary Query (every variant, every kind of conversion target)'),
              (r'^Context::eval_query$', stub_eval_query, 'Context::eval_query(&self, ..) -> arbitrary Result<QueryReply, QueryError>'))
     expect_classes = ['Result::Ok', 'Result::Err']
     assumptions = ['eval_query takes the context by shared reference and rink-core has no interior mutability (checked on the MIR dump, see static_facts)']
@@ -63,9 +65,19 @@ class EvalStep(Harness):
             else:
                 res = ok(variant(ex, 'QueryReply', kind, [Opaque('payload:' + kind)]))
         ex.env['eval_query_result'] = res
+        # what the parser produced: the wrapper may look at it (but not let it change what the context remembers)
+        qk = ex.choose(len(QUERY_SHAPES), 'parsed query shape')
+        qshape = QUERY_SHAPES[qk]
+        if qshape[0] == 'Convert':
+            conv = variant(ex, 'Conversion', qshape[1], [Opaque('conv-payload')] if qshape[1] not in ('None',) else [])
+            ex.env['parsed_query'] = variant(ex, 'Query', 'Convert', [Opaque('Expr'), conv, none(ex), variant(ex, 'Digits', 'Default')])
+        else:
+            ex.env['parsed_query'] = variant(ex, 'Query', qshape[0], [Opaque('query-payload')])
+        hum = vals['use_humanize']
         cell = Cell(ctxv, 'ctx')
         return [Ref(cell), 'any query text'], {'cell': cell, 'flag': flag, 'prev_kind': prev_kind, 'pv': pv, 'nv': nv_, 'kind': kind,
-                                               'raw_present': raw_present, 'reg': reg, 'temps': temps, 'fields': fields, 'res': res}
+                                               'raw_present': raw_present, 'reg': reg, 'temps': temps, 'fields': fields, 'res': res,
+                                               'hum': hum, 'qshape': qshape}
 
     def post(self, ex, ctx, outcome):
         c = ctx['cell'].value
@@ -74,6 +86,7 @@ class EvalStep(Harness):
         obs.append(('registry untouched', c.fields[f.index('registry')] is ctx['reg']))
         obs.append(('load-time temporaries untouched', c.fields[f.index('temporaries')] is ctx['temps']))
         obs.append(('feature flag untouched', n_eq(c.fields[f.index('save_previous_result')], ctx['flag'])))
+        obs.append(('use_humanize setting untouched (whatever the query and its outcome)', n_eq(c.fields[f.index('use_humanize')], ctx['hum'])))
         after = deref_all(c.fields[f.index('previous_result')])
         should_set = ctx['kind'] == 'Number' and bool(ctx['raw_present'])
         flag = zbool(ctx['flag'])
@@ -108,7 +121,9 @@ class EvalStep(Harness):
     def native(self, inputs, label):
         # histories through the public API: flag on/off, a numeric query, then `ans`
         flag = bool(inputs.get('save_previous_result', True))
-        return [{'mode': 'query', 'save_previous_result': flag, 'ans': number_json(Fraction(7), {'m': 1}), 'pre': ['3 s', 'foo bar baz', '1 m -> cm'], 'text': 'ans'}]
+        return [{'mode': 'query', 'save_previous_result': flag, 'ans': number_json(Fraction(7), {'m': 1}), 'pre': ['3 s', 'foo bar baz', '1 m -> cm'], 'text': 'ans'},
+                {'mode': 'query', 'use_humanize': True, 'pre': ['5 m -> UTC', 'foo -> UTC', 'now -> +25:00', '1 m -> "US/Pacific"', 'now -> UTC'], 'text': '1 m'},
+                {'mode': 'query', 'use_humanize': False, 'pre': ['5 m -> UTC', 'now -> UTC', '#jan 1, 2100#'], 'text': '1 m'}]
 
     def judge(self, inputs, label, obs):
         flag = bool(inputs.get('save_previous_result', True))
@@ -116,7 +131,15 @@ class EvalStep(Harness):
         got = obs_number_json(q)
         # after `3 s` (numeric), an error and a conversion: ans must be 3 s when the flag is on, 7 m otherwise
         want = (Fraction(3), {'s': 1}) if flag else (Fraction(7), {'m': 1})
-        return (got != want), 'history [3 s; error; conversion; ans] with flag=%s gave %s, expected %s' % (flag, got, want)
+        bad = []
+        if got != want:
+            bad.append('history [3 s; error; conversion; ans] with flag=%s gave %s, expected %s' % (flag, got, want))
+        if q.get('ctx_save_previous_result') is not None and q.get('ctx_save_previous_result') != flag:
+            bad.append('save_previous_result changed from %s to %s' % (flag, q.get('ctx_save_previous_result')))
+        for o, want_h in zip(obs[1:], (True, False)):
+            if o.get('ctx_use_humanize') is not None and o.get('ctx_use_humanize') != want_h:
+                bad.append('use_humanize changed from %s to %s over a history of timezone conversions and errors' % (want_h, o.get('ctx_use_humanize')))
+        return bool(bad), '; '.join(bad) or 'history leaves flags alone and ans as specified'
 
 
 class StaticPurity(Harness):
